@@ -8,6 +8,7 @@ import (
 	"io"
 	"log"
 	"os"
+	"slices"
 	"sync"
 	"time"
 	"unsafe"
@@ -618,6 +619,13 @@ func (cachefile *cacheFile) setData(streamID uint64, streamTime time.Time, conve
 		if err := cachefile.truncateFile(); err != nil {
 			return fmt.Errorf("failed to truncate file: %w", err)
 		}
+	}
+
+	// A chunk size of zero marks a change of direction in the file format, so
+	// chunks without content cannot be stored; writing their size would end
+	// the size list early and corrupt this and all following records.
+	if slices.ContainsFunc(convertedPackets, func(p index.Data) bool { return len(p.Content) == 0 }) {
+		convertedPackets = slices.DeleteFunc(slices.Clone(convertedPackets), func(p index.Data) bool { return len(p.Content) == 0 })
 	}
 
 	writer := bufio.NewWriter(cachefile.file)
